@@ -98,24 +98,30 @@ Proof. exact encode_total_unguarded_refuted_lemma. Qed.
 Print Assumptions C14_encode_total_before_repair_refuted.
 
 (* a connection that joined stops being listed only by unregistering or by being evicted by the hub
-   as a slow reader ...                                                       (proved part, _partial of:
-   "the relay's own stats feeder is listed in every reachable state") *)
-Theorem C14_feeder_always_listed_partial :
+   as a slow reader *)
+Theorem C14_leaves_only_by_unregister_or_eviction :
   forall evs id m, joined_as evs id = Some m -> present evs id = false ->
     exists e, In e evs /\ removes id e.
 Proof. exact leaves_only_by_lemma. Qed.
-Print Assumptions C14_feeder_always_listed_partial.
+Print Assumptions C14_leaves_only_by_unregister_or_eviction.
 
-(* ... and the full statement is false (F15): the feeder is a member of topic stats like any other,
-   a burst of messages on that topic fills its queue and the hub evicts it; it never unregisters,
-   yet it is gone from the listing and nothing restarts it *)
-Theorem C14_feeder_always_listed_refuted :
-  wf_history ex_burst /\ In (Register ex_feeder) ex_burst /\
-  (forall t, ~ In (Unregister (m_id ex_feeder) t) ex_burst) /\
-  present ex_burst (m_id ex_feeder) = false /\
-  map m_id (listed (hub_run ex_burst)) = [2].
-Proof. exact feeder_always_listed_refuted_lemma. Qed.
-Print Assumptions C14_feeder_always_listed_refuted.
+(* with the F15 repair the relay's own stats reporter (internal; it never unregisters) is listed in
+   every reachable state, whatever traffic its topic carries *)
+Theorem C14_feeder_always_listed :
+  forall evs id m, wf_history evs -> joined_as evs id = Some m -> m_internal m = true ->
+    (forall t, ~ In (Unregister id t) evs) ->
+    present evs id = true /\ In id (map m_id (listed (hub_run evs))).
+Proof. exact feeder_always_listed_lemma. Qed.
+Print Assumptions C14_feeder_always_listed.
+
+(* the burst that evicted the reporter before the repair (a member not marked internal), and the
+   same history with the mark *)
+Theorem C14_burst_example :
+  (forall b, wf_history (ex_burst b)) /\
+  map m_id (listed (hub_run (ex_burst false))) = [2] /\ present (ex_burst false) 1 = false /\
+  map m_id (listed (hub_run (ex_burst true))) = [2; 1] /\ present (ex_burst true) 1 = true.
+Proof. exact burst_example_lemma. Qed.
+Print Assumptions C14_burst_example.
 
 (* non-vacuity: a history with odd metadata (quotes, an invalid byte, U+2028, a 4-byte rune), one
    leave and one eviction; the listing encodes, is well-formed, and decodes to two reports whose
@@ -123,7 +129,7 @@ Print Assumptions C14_feeder_always_listed_refuted.
 Definition ex_frames0 := mk_frames 0 0 lex_zero (Finite lex_zero).
 Definition ex_member (id : N) (t ua : bytes) :=
   mk_member id t (Some [[114; 101; 97; 100]; [34; 60]]) true false
-            (bytes_of "2023-03-10T14:04:45Z") (bytes_of "2023-03-10T15:04:45Z") ua [255] ex_frames0 ex_frames0.
+            (bytes_of "2023-03-10T14:04:45Z") (bytes_of "2023-03-10T15:04:45Z") ua [255] false ex_frames0 ex_frames0.
 Definition ex_history : list event :=
   [Register (ex_member 1 [97] [34; 92; 255]); Register (ex_member 2 [97] [226; 128; 168; 240; 159; 152; 128]);
    Register (ex_member 3 [98] []); Traffic 2 Tx (mk_frames 3 1000 [53] NonFinite); Unregister 1 [97];
